@@ -40,7 +40,8 @@ SPECS = ['a:1', 'a:1', 'a', 'x:1', 'a:1', 'a:2', 'b:1', 'x:1', 'y:1', 'r:1', 'a'
 
 @st.composite
 def _cases(draw):
-    u = draw(gen.universes(attachments=True, relations=True, max_entries=2, max_synsets=2))
+    u = draw(gen.universes(attachments=True, relations=True, max_entries=2, max_synsets=2,
+                           ext_new_forms=True))
     docs = u['lexicons']
     n = len(docs)
     # files: every lexicon alone, plus one file with all of them in order
